@@ -103,6 +103,7 @@ type c15Pkg struct {
 	Decls   []c15Decl // in source order: file order, then position
 	Main    bool
 	NFiles  int
+	Names   []string     // file names, Names[f] for file index f, ascending in byte order (nil: a.go, b.go, ...); rendering only: the models see the declaration list in file-index order = the order in which the go tool presents the files
 	Grouped map[int]bool // spec index -> starts a `var ( ... )` group with the next spec
 	Blank   map[int]bool // variable ids written `_` in the source (a fresh id each: nothing can refer to them)
 	Shape   map[int]int  // variable id -> form of its initialiser expression (c15Shapes); rendering only, absent from the model
@@ -719,7 +720,7 @@ func (g *c15Gen) body(mode c15Mode, nSpecs int) *c15Pkg {
 	// 5. files, groups, init functions
 	p.NFiles = 1
 	if r.chance(45) {
-		p.NFiles = 2 + r.intn(2)
+		p.NFiles = 2 + r.intn(3)
 	}
 	cuts := map[int]bool{}
 	for k := 1; k < p.NFiles; k++ {
@@ -1080,6 +1081,7 @@ func (g *c15Gen) program(mode c15Mode, multiPkg, shufflePkgs bool) *c15Prog {
 			}
 		}
 		p.Imports = imps
+		g.fileNames(p)
 	}
 	if nExtra > 0 {
 		// rename the packages: either so that yaegi's depth-first order is the import-path order, or at random
@@ -1375,7 +1377,53 @@ func (p *c15Pkg) specText(s c15Spec) string {
 	return p.vnames(s.Names) + typ + " = " + strings.Join(es, ", ")
 }
 
-// files renders the package; keys are file names a.go, b.go, c.go.
+// Pools of file names whose byte order (the order in which the go tool hands the files of a package to the compiler,
+// hence the declaration order across files and the order of the init functions) differs from the case-folded order,
+// from the numeric order or from the usual writing order. No two names of a pool collide under case folding (the go
+// tool rejects that), none starts with '_' or '.', none ends in _test or in a GOOS/GOARCH suffix.
+var c15NamePools = [][]string{
+	{"Zeta.go", "alpha.go", "Beta.go", "gamma.go", "Omega.go"},
+	{"B.go", "a.go", "C.go", "d.go", "E.go"},
+	{"x10.go", "x9.go", "x_a.go", "x2.go", "xA.go"},
+	{"a_b.go", "aB.go", "a.go", "ac.go", "a-b.go"},
+	{"10.go", "9.go", "A1.go", "a0.go", "Z_z.go"},
+	{"main.go", "Init.go", "vars.go", "Util.go", "doc.go"},
+}
+
+// fileNames draws the names of the files of a multi-file package from one pool and assigns them to the file indices in
+// byte order: the file index stays the position of the file in the go tool's presentation order.
+func (g *c15Gen) fileNames(p *c15Pkg) {
+	if p.NFiles < 2 || g.r.chance(25) {
+		return
+	}
+	pool := append([]string(nil), c15NamePools[g.r.intn(len(c15NamePools))]...)
+	for i := len(pool) - 1; i > 0; i-- {
+		j := g.r.intn(i + 1)
+		pool[i], pool[j] = pool[j], pool[i]
+	}
+	names := pool[:p.NFiles]
+	sort.Strings(names)
+	p.Names = names
+}
+
+func (p *c15Pkg) fileName(f int) string {
+	if p.Names != nil {
+		return p.Names[f]
+	}
+	return string(rune('a'+f)) + ".go"
+}
+
+// c15FoldSorted reports whether the byte order of the names is also their case-folded order.
+func c15FoldSorted(names []string) bool {
+	for i := 0; i+1 < len(names); i++ {
+		if strings.ToLower(names[i]) > strings.ToLower(names[i+1]) {
+			return false
+		}
+	}
+	return true
+}
+
+// files renders the package; keys are the file names (a.go, b.go, c.go unless Names is set).
 func (p *c15Pkg) files(prefix string) map[string]string {
 	out := map[string]string{}
 	for f := 0; f < p.NFiles; f++ {
@@ -1476,7 +1524,7 @@ func (p *c15Pkg) files(prefix string) map[string]string {
 				b.WriteString(p.declText(d))
 			}
 		}
-		out[string(rune('a'+f))+".go"] = b.String()
+		out[p.fileName(f)] = b.String()
 	}
 	return out
 }
@@ -1597,11 +1645,38 @@ const c15Loop = "variable definition loop"
 
 // c15RunPath evaluates the program laid out as a GOPATH tree in a MapFS through EvalPath (importSrc).
 func c15RunPath(files map[string]string, prefix string, timeout time.Duration) (res outcome) {
+	return c15RunPathOn(files, prefix, false, timeout)
+}
+
+// c15RunPathOn: EvalPath of the program directory, on an in-memory tree (fstest.MapFS) or on a real directory tree
+// (a temporary GOPATH read through the default file system of the interpreter).
+func c15RunPathOn(files map[string]string, prefix string, disk bool, timeout time.Duration) (res outcome) {
 	mfs := fstest.MapFS{}
-	for fn, src := range files {
-		mfs["src/"+prefix+"/"+fn] = &fstest.MapFile{Data: []byte(src)}
+	opts := interp.Options{GoPath: "."}
+	if disk {
+		root, err := os.MkdirTemp("", "c15disk")
+		if err != nil {
+			return outcome{End: "host-crash:mkdirtemp:" + err.Error()}
+		}
+		defer os.RemoveAll(root)
+		for fn, src := range files {
+			path := filepath.Join(root, "src", filepath.FromSlash(prefix), filepath.FromSlash(fn))
+			if err := os.MkdirAll(filepath.Dir(path), 0o755); err != nil {
+				return outcome{End: "host-crash:mkdir:" + err.Error()}
+			}
+			if err := os.WriteFile(path, []byte(src), 0o644); err != nil {
+				return outcome{End: "host-crash:write:" + err.Error()}
+			}
+		}
+		opts.GoPath = root
+	} else {
+		for fn, src := range files {
+			mfs["src/"+prefix+"/"+fn] = &fstest.MapFile{Data: []byte(src)}
+		}
+		opts.SourcecodeFilesystem = mfs
 	}
 	var stdout, stderr bytes.Buffer
+	opts.Stdout, opts.Stderr = &stdout, &stderr
 	done := make(chan outcome, 1)
 	go func() {
 		var r outcome
@@ -1612,7 +1687,7 @@ func c15RunPath(files map[string]string, prefix string, timeout time.Duration) (
 			}
 			done <- r
 		}()
-		i := interp.New(interp.Options{GoPath: ".", SourcecodeFilesystem: mfs, Stdout: &stdout, Stderr: &stderr})
+		i := interp.New(opts)
 		if err := i.Use(stdlib.Symbols); err != nil {
 			r.End = "host-crash:use:" + err.Error()
 			return
@@ -1805,6 +1880,12 @@ func runC15(args []string) error {
 			}
 		} else {
 			r = c15RunPath(c.files, "ref/"+c.name, 30*time.Second)
+			if i%3 == 0 { // the same tree on a real directory must behave the same as on the in-memory file system
+				r2 := c15RunPathOn(c.files, "ref/"+c.name, true, 30*time.Second)
+				if c15Observe(r2, c15Loop).key() != c15Observe(r, c15Loop).key() {
+					r = outcome{Stdout: r.Stdout, End: "mapfs-vs-disk:" + r.End + " / " + r2.End + " stdout2=" + r2.Stdout}
+				}
+			}
 		}
 		c.yaegi = c15Observe(r, c15Loop)
 		if c.yaegi.Odd == "" && c.hist != 0 {
@@ -1846,6 +1927,28 @@ func runC15(args []string) error {
 		sm.count("stream:" + c.stream)
 		sm.count("region:" + c.region)
 		sm.count(fmt.Sprintf("packages:%d", len(c.prog.Pkgs)))
+		named, unfolded, maxFiles := false, false, 1
+		for _, p := range c.prog.Pkgs {
+			if p.NFiles > maxFiles {
+				maxFiles = p.NFiles
+			}
+			if p.Names != nil {
+				named = true
+				if !c15FoldSorted(p.Names) {
+					unfolded = true
+				}
+			}
+		}
+		sm.count(fmt.Sprintf("files in the largest package:%d", maxFiles))
+		if named {
+			sm.count("file names drawn from the name pools (some package)")
+		}
+		if unfolded {
+			sm.count("file names whose byte order differs from the case-folded order (some package)")
+		}
+		if len(c.files) > 1 && (c.id-1)%3 == 0 {
+			sm.count("EvalPath also on a real directory tree")
+		}
 		if c.viaPath {
 			sm.count("run:EvalPath")
 		} else {
